@@ -43,6 +43,10 @@ type c15Case struct {
 	IP      obs.Hex    `json:"ip"`
 	Mods    []c15Mod   `json:"mods"`
 	Spare   int        `json:"spare"` // spare capacity of the caller's modifier slice
+	// Repr: how the caller spelled the input packet (same packet, same encoding): bit 1 a zero-length hardware address
+	// is nil instead of empty; bit 2 the hardware address is a window of a larger array with foreign octets behind it;
+	// bit 4 zero-length option values are nil instead of empty
+	Repr int `json:"repr,omitempty"`
 }
 
 // model packet
@@ -210,6 +214,27 @@ var c15 = newChk("C15", "builder-model",
 	"generated input packets (C01 domain incl. any opcode/flags/addresses, with and without options 82, 61, 54, 55, empty-valued 82/61; optionally passed over the wire first) × builder (reply, request-from-offer, renew, release, inform, discovery) × 0..4 generated modifiers drawn from every exported With*; the built packet is encoded, decoded by the independent decoder and compared with an independent model (RFC defaults then modifiers in order); non-trivial = input carries option 82 or 61, or a modifier overrides a default; distinct by case hash",
 	func(rec *obs.Rec, c c15Case) *obs.Fail {
 		in := c.In.Lib()
+		if c.Repr != 0 {
+			enc0 := in.ToBytes()
+			if c.Repr&1 != 0 && len(in.ClientHWAddr) == 0 {
+				in.ClientHWAddr = nil
+			}
+			if c.Repr&2 != 0 && len(in.ClientHWAddr) > 0 {
+				big := bytes.Repeat([]byte{0xEE}, len(in.ClientHWAddr)+24)
+				copy(big, in.ClientHWAddr)
+				in.ClientHWAddr = big[:len(in.ClientHWAddr)]
+			}
+			if c.Repr&4 != 0 {
+				for k, v := range in.Options {
+					if len(v) == 0 {
+						in.Options[k] = nil
+					}
+				}
+			}
+			if !bytes.Equal(in.ToBytes(), enc0) {
+				return obs.Failf("C15/harness/representation", "the same packet in another spelling encodes the same", "differs at byte %d", firstDiff(in.ToBytes(), enc0))
+			}
+		}
 		if c.ViaWire {
 			q, err := dhcpv4.FromBytes(in.ToBytes())
 			if err != nil {
@@ -408,6 +433,10 @@ func genC15() *rapid.Generator[c15Case] {
 				}
 			}
 		}
+		if rapid.IntRange(0, 5).Draw(t, "nohw") == 0 {
+			in.CHAddr = nil // no hardware address at all (hlen 0)
+		}
+		c.Repr = rapid.SampledFrom([]int{0, 0, 0, 1, 2, 4, 5, 6, 7}).Draw(t, "repr")
 		c.In = in
 		c.HW = gen.Fill(t, rapid.SampledFrom([]int{6, 6, 0, 8, 16}).Draw(t, "hwlen"), "hw")
 		c.IP = rapid.SliceOfN(rapid.Byte(), 4, 4).Draw(t, "lip")
